@@ -312,10 +312,25 @@ def Tok.setSubset {E : Type} (t : Tok E) (s : Subset) : Tok E :=
   let ms := Subset.ofMode t.mode
   { t with subset := ((s.union ms).normalize).union ms }
 
+/-- Which `StatefulTokenizer::reset` is modelled.  `cur` = the tree as it was
+(`self.top_path.as_mut().map(|p| p.clear())`: only an EXISTING path is cleared, a path taken by an
+analysis that failed afterwards stays `None`); `fix` = the repair of the C10 defect
+(`self.top_path.get_or_insert_with(Vec::new).clear()`: the path is re-created when it is missing).
+The driver reads the variant from the token `reset_variant=cur|fix` of the case line (default `cur`);
+the harness sets it by probing `stateful_tokenizer.rs`. -/
+inductive ResetVariant | cur | fix
+deriving DecidableEq, Repr, Inhabited
+
+/-- first statement of `reset` on the field `top_path` -/
+def resetPath {E : Type} (v : ResetVariant) (p : Option (List E)) : Option (List E) :=
+  match v with
+  | .cur => p.map (fun _ => [])                          -- as_mut().map(|p| p.clear())
+  | .fix => some []                                      -- get_or_insert_with(Vec::new).clear()
+
 /-- `reset`, then the caller's `push_str(text)` -/
-def Tok.resetWith {E : Type} (t : Tok E) (text : List E) : Tok E :=
+def Tok.resetWith {E : Type} (v : ResetVariant) (t : Tok E) (text : List E) : Tok E :=
   let i := t.input.reset
-  { t with topPath := t.topPath.map (fun _ => []), oov := [], input := { i with original := i.original ++ text } }
+  { t with topPath := resetPath v t.topPath, oov := [], input := { i with original := i.original ++ text } }
 
 /-- `build_lattice` -/
 def Tok.buildLattice {E : Type} (P : Payload E) (t : Tok E) : Tok E × Outcome :=
@@ -362,8 +377,8 @@ def Tok.doTokenize {E : Type} (P : Payload E) (t : Tok E) : Tok E × Outcome :=
   | (i, o) => ({ t with input := i }, o)
 
 /-- one analysis as every caller does it: `reset().push_str(text); do_tokenize()` -/
-def Tok.analyse {E : Type} (P : Payload E) (t : Tok E) (text : List E) : Tok E × Outcome :=
-  Tok.doTokenize P (t.resetWith text)
+def Tok.analyse {E : Type} (v : ResetVariant) (P : Payload E) (t : Tok E) (text : List E) : Tok E × Outcome :=
+  Tok.doTokenize P (t.resetWith v text)
 
 /-! ## `MorphemeList`s sharing `InputPart`s (`Rc<RefCell<InputPart>>`) -/
 
@@ -452,10 +467,10 @@ def World.lookup {E : Type} (P : Payload E) (w : World E) (j : Nat) (q : List E)
         | (i2, o) => ({ w with parts := w.parts.set L.part { p with input := i2 } }, o)
       | (i1, o) => ({ w with parts := w.parts.set L.part { p with input := i1 } }, o)
 
-def World.step {E : Type} (P : Payload E) (w : World E) : Op E → World E × Outcome
+def World.step {E : Type} (v : ResetVariant) (P : Payload E) (w : World E) : Op E → World E × Outcome
   | .setMode m => ({ w with tok := w.tok.setMode m }, .ok)
   | .setSubset s => ({ w with tok := w.tok.setSubset s, request := some s }, .ok)
-  | .analyse text => let r := w.tok.analyse P text; ({ w with tok := r.1 }, r.2)
+  | .analyse text => let r := w.tok.analyse v P text; ({ w with tok := r.1 }, r.2)
   | .collect j => w.collect j
   | .newList => ({ w with parts := w.parts ++ [Part.default P], lists := w.lists ++ [⟨w.parts.length, []⟩] }, .ok)
   | .emptyClone j =>
@@ -471,9 +486,9 @@ def World.step {E : Type} (P : Payload E) (w : World E) : Op E → World E × Ou
 
 /-- a history: every operation carries the payload it was executed with (one fixed `P` in practice; the
     theorems do not need that) -/
-def World.run {E : Type} (w : World E) : List (Payload E × Op E) → World E
+def World.run {E : Type} (v : ResetVariant) (w : World E) : List (Payload E × Op E) → World E
   | [] => w
-  | (P, op) :: rest => World.run (w.step P op).1 rest
+  | (P, op) :: rest => World.run v (w.step v P op).1 rest
 
 /-- the tokenizer a caller would create for the same mode and field request -/
 def Tok.freshFor {E : Type} (m : Mode) : Option Subset → Tok E
